@@ -906,6 +906,9 @@ def sm_check(ctx, pid):
         "%s: StateMachine model SM.Model; clock arithmetic idealised over Z ticks (dyadic clocks, 1/64 s, in the correspondence); "
         "theorems hold inside the usage contract K of DESIGN.md 6.1 where stated (hypothesis `ok`); single-threaded use" % pid)
     ctx.prove()
+    # the small methods around execute(), regenerated from the current source (fail-closed translator harness/pytr.py)
+    from . import sm_translate
+    sm_translate.obligation(ctx)
     n = {"quick": 2000, "thorough": 48000}[ctx.tier]
     r = ctx.rng
     cases = []
